@@ -28,11 +28,17 @@ import (
 type Ev struct {
 	ID  int
 	Bad bool `json:"-"`
+	// Malformed: MarshalJSON returns bytes that are not JSON, and no error. encoding/json
+	// rejects that: the event has no JSON encoding, like one whose MarshalJSON fails
+	Malformed bool `json:"-"`
 }
 
 func (e Ev) MarshalJSON() ([]byte, error) {
 	if e.Bad {
 		return nil, errors.New("not encodable")
+	}
+	if e.Malformed {
+		return []byte(`{"ID":`), nil
 	}
 	return json.Marshal(struct{ ID int }{e.ID})
 }
@@ -51,10 +57,11 @@ const (
 	dynBad // EvAny whose Payload is a channel: json reports an unsupported *dynamic* type
 	dynOk  // EvAny with an encodable payload (must persist, also after a dynBad publish)
 	late   // the append ignores its context, outlives the persistence timeout and succeeds: not a failure
+	malformed // Ev whose MarshalJSON returns malformed bytes and a nil error: no JSON encoding
 	nModes
 )
 
-var names = []string{"ok", "reject", "unencodable", "timeout", "unencodable-dynamic", "ok-dynamic", "ok-after-the-timeout"}
+var names = []string{"ok", "reject", "unencodable", "timeout", "unencodable-dynamic", "ok-dynamic", "ok-after-the-timeout", "unencodable-malformed-marshaljson"}
 
 // progStore follows a script: one entry per Append call.
 type progStore struct {
@@ -110,6 +117,11 @@ type tcase struct {
 	// its own, and publishes one event. Nothing of the second bus may reach into the first:
 	// failures of the first bus are reported to the first bus's handler only
 	SecondBus bool `json:"second_bus_from_the_same_option_values,omitempty"`
+	// FarDeadline: every publish is made with PublishContext and a context whose own deadline
+	// is an hour away. The persistence timeout (1 ms) is the earlier of the two and is the one
+	// that counts: a publish whose append waits for its context is over after about the
+	// timeout (virtual time), not after the caller's hour
+	FarDeadline bool `json:"publish_context_with_a_far_deadline,omitempty"`
 }
 
 type obsImpl struct{ starts, completes, failed int }
@@ -149,6 +161,9 @@ func (t tcase) String() string {
 	if t.SecondBus {
 		sa += " secondBusFromTheSameOptionValues"
 	}
+	if t.FarDeadline {
+		sa += " publishContextWithAFarDeadline"
+	}
 	return fmt.Sprintf("pattern=[%s] errorHandler=%v preloaded=%d lateSet=%v reentrant=%v hookAfterStore=%v%s", strings.Join(p, ","), t.Handler, t.Preloaded, t.LateSet, t.Reentrant, t.HookAfter, sa)
 }
 
@@ -179,7 +194,7 @@ func runCaseBody(t tcase) (out []string) {
 	}
 	for _, b := range t.Pattern {
 		switch b {
-		case unenc, dynBad:
+		case unenc, dynBad, malformed:
 			if reentrant {
 				script = append(script, ok)
 			}
@@ -263,10 +278,10 @@ func runCaseBody(t tcase) (out []string) {
 		case dynOk:
 			ev = EvAny{ID: id, Payload: map[string]any{"k": []int{1}}}
 		default:
-			ev = Ev{ID: id, Bad: b == unenc}
+			ev = Ev{ID: id, Bad: b == unenc, Malformed: b == malformed}
 		}
 		fails := b != ok && b != dynOk && b != late
-		noAttempt := b == unenc || b == dynBad
+		noAttempt := b == unenc || b == dynBad || b == malformed
 		callsBefore, errsBefore, gotBefore := st.calls, len(errs), len(got)
 		func() {
 			defer func() {
@@ -274,11 +289,20 @@ func runCaseBody(t tcase) (out []string) {
 					bad("publish %d (%s) panicked: %v", i, names[b], r)
 				}
 			}()
+			pctx, pcancel := context.Background(), context.CancelFunc(func() {})
+			if t.FarDeadline {
+				pctx, pcancel = context.WithTimeout(context.Background(), time.Hour)
+			}
+			began := vrt.Elapsed()
 			switch e := ev.(type) {
 			case Ev:
-				eventbus.Publish(bus, e)
+				eventbus.PublishContext(bus, pctx, e)
 			case EvAny:
-				eventbus.Publish(bus, e)
+				eventbus.PublishContext(bus, pctx, e)
+			}
+			pcancel()
+			if took := vrt.Elapsed() - began; took > 100*time.Millisecond {
+				bad("publish %d (%s): the publish took %v of virtual time with a persistence timeout of 1ms (the timeout did not bound the append)", i, names[b], took)
 			}
 		}()
 		followUp := fails && reentrant
@@ -406,6 +430,7 @@ func cases(thorough bool) []tcase {
 					if pre == 0 {
 						l = append(l, tcase{Pattern: p, Handler: hd, Observed: true})
 						l = append(l, tcase{Pattern: p, Handler: hd, SecondBus: true})
+						l = append(l, tcase{Pattern: p, Handler: hd, FarDeadline: true})
 					}
 					if hd {
 						l = append(l, tcase{Pattern: p, Handler: hd, Preloaded: pre, LateSet: true})
